@@ -24,7 +24,7 @@ int main(int argc, char** argv) {
 	cholmod_dense* B = cholmod_l_allocate_dense(n, 1, n, CHOLMOD_REAL, &c);
 	for (int i = 0; i < n; i++) ((double*)B->x)[i] = b[i];
 	cholmod_dense* x = NULL;
-	if (!strcmp(argv[1], "nnls_normal_block3")) x = nnls_normal_block3(S, B, 0, &c);
+	if (!strcmp(argv[1], "nnls_normal_block3")) x = nnls_normal_block3(S, B, getenv("VERB") != NULL, &c);
 	else if (!strcmp(argv[1], "nnls_normal_block")) x = nnls_normal_block(S, B, 0, &c);
 	else if (!strcmp(argv[1], "nnls_normal_block_updown")) x = nnls_normal_block_updown(S, B, 0, &c);
 	else if (!strcmp(argv[1], "nnls_lawson_hanson")) x = nnls_lawson_hanson(S, B, 1e-9, 0, 0, 0, 1, 0, &c);
